@@ -20,6 +20,7 @@ var syncDepth int
 func resetMonitors() {
 	frozenCells, frozenMaps, syncDepth = nil, nil, 0
 	servedBodies = map[string]string{}
+	resetSegments()
 }
 
 func freezeValue(v value, kind string, seen map[*value]bool) {
@@ -119,6 +120,7 @@ func (e *Explorer) targetFunc() string {
 }
 
 func checkWrite(addr *value, fr *frame) {
+	segCellWrite(addr)
 	if frozenCells == nil {
 		return
 	}
@@ -135,6 +137,7 @@ func checkWrite(addr *value, fr *frame) {
 }
 
 func checkMapWrite(m *omap) {
+	segMapAccess(m, true)
 	if frozenMaps == nil {
 		return
 	}
